@@ -92,12 +92,27 @@ func TestC15Direct(t *testing.T) {
 					caller = node.DeepCopy()
 					caller.Spec.Taints = drawTaints(rt, "staleTaints", 3)
 				}
-				failure := rapid.SampledFrom([]string{"", "", "", "get", "update"}).Draw(rt, "failure")
+				failure := rapid.SampledFrom([]string{"", "", "", "get", "update", "conflict"}).Draw(rt, "failure")
+				api.OnConflict = nil
 				switch failure {
 				case "get":
 					j.Arm([]sim.Fault{{Kind: sim.KGet, Nth: 0}})
 				case "update":
 					j.Arm([]sim.Fault{{Kind: sim.KUpdate, Nth: 0}})
+				case "conflict": // the first update loses against a concurrent writer that changes the taints
+					j.Arm([]sim.Fault{{Kind: sim.KUpdate, Nth: 0}})
+					extra := drawTaints(rt, "concurrent", 2)
+					dropFirst := rapid.Bool().Draw(rt, "concurrentDrop")
+					otherReplica := rapid.IntRange(0, 2).Draw(rt, "otherReplicaTaints") == 0
+					api.OnConflict = func(stored *v1.Node) {
+						if dropFirst && len(stored.Spec.Taints) > 0 && stored.Spec.Taints[0].Key != ref.TaintKey {
+							stored.Spec.Taints = stored.Spec.Taints[1:]
+						}
+						stored.Spec.Taints = append(stored.Spec.Taints, extra...)
+						if _, has := ref.HasTaint(stored, ref.TaintKey); otherReplica && !has {
+							stored.Spec.Taints = append(stored.Spec.Taints, v1.Taint{Key: ref.TaintKey, Value: "946684001", Effect: v1.TaintEffectNoSchedule})
+						}
+					}
 				}
 				before := api.Nodes["n1"].DeepCopy()
 				mark := j.Mark()
@@ -136,8 +151,14 @@ func TestC15Direct(t *testing.T) {
 				if failure == "get" && hits > 0 {
 					wantPut = false
 				}
+				accepted := 0
+				for _, p := range puts {
+					if p.OK() {
+						accepted++
+					}
+				}
 				switch {
-				case len(puts) > 1:
+				case accepted > 1 || (len(puts) > 1 && failure != "conflict"):
 					fail(rt, dumpPath(), "C15:more-than-one-update", "%s", desc())
 				case len(puts) == 1 && !wantPut:
 					sig := "C15:restamp"
@@ -152,11 +173,21 @@ func TestC15Direct(t *testing.T) {
 					fail(rt, dumpPath(), "C15:missing-update", "%s", desc())
 				}
 				for _, p := range puts {
+					if !p.OK() {
+						continue // refused by the API: nothing was written
+					}
 					if sig, msg := world.PreciseWrite(p.Before, p.Sent, p.T, effect); sig != "" {
 						fail(rt, dumpPath(), "C15:"+sig, "%s\n%s", msg, desc())
 					}
 				}
-				failed := hits > 0
+				failed := hits > 0 && accepted == 0
+				if failure == "conflict" {
+					// the concurrent writer changed the stored node: compare against that state
+					before = api.Nodes["n1"].DeepCopy()
+					if accepted > 0 {
+						before = puts[len(puts)-1].Before
+					}
+				}
 				if failed && err == nil {
 					fail(rt, dumpPath(), "C15:failure-not-reported", "%s", desc())
 				}
